@@ -110,6 +110,14 @@ Objs(P, S) == {v \in S : IsObj(P, v)}
 ---------------------------------------------------------------------------
 \* queues of a step
 
+\* Callee-first operands.  `x -> f()` expands to `(f()(x))` and sync `x ?? f()` to `__inspect(f(), x)`: a call-expression
+\* operand of `->` (every macro) or of `??` (sync macros) is evaluated BEFORE the receiver chain it is applied to, i.e. before
+\* everything else of the branch's expression in that step, the later operator's operand first.
+IsEarly(P, it) == it.form = "call" /\ (it.op \in {"then", "job"} \/ (it.op = "inspect" /\ ~IsAsync(P)))
+RevSeq(q) == [i \in 1 .. Len(q) |-> q[Len(q) + 1 - i]]
+Early(P, b, st) == LET sel == SelectSeq(Items(P, b, st), LAMBDA it : IsEarly(P, it))
+                   IN  RevSeq([i \in 1 .. Len(sel) |-> sel[i].id])
+
 RECURSIVE CatBr(_, _, _, _)
 CatBr(F(_), P, st, b) ==   \* concatenation of F(b) over active branches >= b in order
   IF b >= NB(P) THEN <<>>
@@ -126,8 +134,10 @@ Caps(P, st) == LET F(b) == CapsOfBranch(P, st, b) IN CatBr(F, P, st, 0)
 ConsOfBranch(P, st, b) ==
   LET B   == P.branches[b + 1]
       ini == IF st = 0 /\ B.init = "expr" THEN <<[ev |-> "init", id |-> B.iid, b |-> b]>> ELSE <<>>
-      sel == SelectSeq(Items(P, b, st), LAMBDA it : it.form = "call")
-  IN  ini \o [i \in 1 .. Len(sel) |-> [ev |-> "opnd", id |-> sel[i].id, b |-> b]]
+      sel == SelectSeq(Items(P, b, st), LAMBDA it : it.form = "call" /\ ~IsEarly(P, it))
+      ear == Early(P, b, st)
+  IN  [i \in 1 .. Len(ear) |-> [ev |-> "opnd", id |-> ear[i], b |-> b]]
+      \o ini \o [i \in 1 .. Len(sel) |-> [ev |-> "opnd", id |-> sel[i].id, b |-> b]]
 Cons(P, st) == IF IsAsync(P) THEN (LET F(b) == ConsOfBranch(P, st, b) IN CatBr(F, P, st, 0)) ELSE <<>>
 
 \* where the custom joiner's event sits relative to the branches of a step
@@ -155,15 +165,15 @@ Norm(s, b, i, ph, v) ==     \* skip everything that produces no event
   ELSE LET it == its[i] IN
     IF ph = "o" THEN
        IF it.op = "or" THEN [i |-> i, ph |-> "o", v |-> v]
-       ELSE IF it.form = "call" /\ OpndInline(P) THEN [i |-> i, ph |-> "o", v |-> v]
+       ELSE IF it.form = "call" /\ OpndInline(P) /\ ~IsEarly(P, it) THEN [i |-> i, ph |-> "o", v |-> v]
        ELSE Norm(s, b, i, "e", v)
     ELSE IF ph = "e" THEN
        IF Invoked(P, it.op, v) THEN [i |-> i, ph |-> "e", v |-> v]
        ELSE Norm(s, b, i + 1, "o", v)
     ELSE [i |-> i, ph |-> ph, v |-> v]
 
-\* pc of branch b at the start of step st (state s already has k = st)
-StartPc(s, b) ==
+\* pc of branch b at the start of step st (state s already has k = st), after its callee-first operands
+StartPc0(s, b) ==
   LET P == s.prog  B == P.branches[b + 1] IN
   IF s.k = 0 THEN
      IF IsAsync(P) THEN
@@ -174,13 +184,19 @@ StartPc(s, b) ==
      ELSE Norm(s, b, 1, "o", InitV(P, s.plan, b))
   ELSE Norm(s, b, 1, "o", s.val[b])
 
+\* ph = "y": the callee-first operands of the step are being evaluated, i indexes Early(..)
+StartPc(s, b) ==
+  IF ~IsAsync(s.prog) /\ Early(s.prog, b, s.k) # <<>> THEN [i |-> 1, ph |-> "y", v |-> NoV] ELSE StartPc0(s, b)
+
 ItemAt(s, b) == Items(s.prog, b, s.k)[s.pc[b].i]
-IdAt(s, b) == IF s.pc[b].i = 0 THEN s.prog.branches[b + 1].iid ELSE ItemAt(s, b).id
+IdAt(s, b) == IF s.pc[b].ph = "y" THEN Early(s.prog, b, s.k)[s.pc[b].i]
+              ELSE IF s.pc[b].i = 0 THEN s.prog.branches[b + 1].iid ELSE ItemAt(s, b).id
 
 \* The one event branch b can produce next (a set with 0 or 1 elements).
 BranchEvent(s, b) ==
   LET P == s.prog  p == s.pc[b]  id == IdAt(s, b) IN
-  CASE p.ph = "i" -> {E("init", id, b, NoV, <<>>)}
+  CASE p.ph = "y" -> {E("opnd", Early(P, b, s.k)[p.i], b, NoV, <<>>)}
+    [] p.ph = "i" -> {E("init", id, b, NoV, <<>>)}
     [] p.ph = "o" -> {E("opnd", id, b, NoV, <<>>)}
     [] p.ph = "e" -> {E("enter", id, b, p.v, <<>>)}
     [] p.ph = "g" -> {E("arrive", id, b, NoV, <<>>)}
@@ -285,7 +301,7 @@ Running(s) == s.ph = "step" /\ s.capq = <<>> /\ s.consq = <<>> /\ ~CallerPanics(
 \* branch after branch, and must yield the job the thread then runs.  In the programs of the corpus the job is the
 \* last action of the step (operator "job": `-> |r| move || f(r)`); everything before it runs on the caller.
 EagerSpawn(P) == ~IsAsync(P) /\ IsSpawn(P) /\ P.opts.lazy = "false"
-AtJob(s, c) == /\ c \notin s.ended
+AtJob(s, c) == /\ c \notin s.ended /\ s.pc[c].ph # "y"
                /\ s.pc[c].i \in 1 .. Len(Items(s.prog, c, s.k))
                /\ Items(s.prog, c, s.k)[s.pc[c].i].op = "job"
 JobIds(P) == UNION {UNION {{Items(P, b, k)[j].id : j \in {x \in 1 .. Len(Items(P, b, k)) : Items(P, b, k)[x].op = "job"}}
@@ -423,6 +439,8 @@ ApplyBranch(s0, e) ==
     [] e.ev = "opnd" ->
          LET pk == PanicKeyFor(s, e)  it == ItemAt(s, b) IN
          IF pk # "" THEN [s EXCEPT !.pp = pk, !.pb = b]
+         ELSE IF p.ph = "y"
+         THEN (IF p.i < Len(Early(P, b, s.k)) THEN SetPc(s, b, [p EXCEPT !.i = p.i + 1]) ELSE SetPc(s, b, StartPc0(s, b)))
          ELSE IF it.op = "or"
          THEN LET alt == AltV(P, s.plan, b, it.id)
                   nv  == IF p.v.ok THEN p.v ELSE alt
